@@ -44,6 +44,18 @@ Extension pass (model Infretis/Model/ConfigInit.lean):
     min(count, workers) free slots per referenced engine (C18:engine-occupation);
   * block H: setup_config(inp, re_inp) over input file × restart file × same path (215 cases) against
     Infretis.Config.setupConfigFiles (file missing, two-file choice, restart branch, fresh [current], header, pattern);
+Follow-up pass (/repo 971ccbc: check_config rejects a [current] table written for another number of interfaces):
+  * the restart route builds the [current] table for the case's own number of interfaces and for mismatching ones
+    (model: Cfg.curSize / sizeTest); every accepted restart configuration goes through the REAL setup_internal and the
+    first picks ("accepted ⇒ initialises" judged on the restart route too) and is compared with
+    Infretis.Config.startUp; signature of the old defect: C18:restart:current-size-differs-from-interfaces;
+  * block S: the real setup_internal called directly on size-mismatching [current] tables against
+    Infretis.Config.startUpAsIs (the ValueError of add_traj the old code ran into);
+  * block H2: restart files written by the real write_toml (incl. output.pattern → output.pattern_file) read back
+    directly / next to their raw input / next to a matching input, against setupConfigFiles (hasPatternFile);
+  * output.pattern cases (workers = 0 included) run through the real setup_internal on the fresh route;
+  * generated initial paths are checked with the library's own Path.check_interfaces;
+  * PENDING_FINDINGS holds open defects only.
   * block T: values of another TOML type (ints for floats must behave identically; NaN / bool / float workers / strings
     / nested lists / missing tables are judged by the same predicates read with Python's comparisons; what the unchanged
     library gets wrong there is listed in PENDING_FINDINGS and written to evidence `pending_findings`).
@@ -132,7 +144,8 @@ def to_dict(c, data_dir):
     return d
 
 
-def to_line(op, c):
+def to_line(op, c, size=None):
+    """`size`: the `size` of the dictionary's [current] table (None = no [current] table)"""
     intf, workers, moves, cap, lm1, quantis, ee, engines, seed, acc = c[:10]
     o = lambda v: "-" if v is None else str(int(v))  # noqa: E731
     if ee is None:
@@ -140,7 +153,8 @@ def to_line(op, c):
     else:
         ees = " ".join([str(len(ee))] + [lst(x, hexs) for x in ee])
     engs = " ".join([str(len(engines))] + [f"{hexs(n)} {cls} {o(ip)} {other}" for (n, cls, ip, other) in engines])
-    return f"{op} {lst(intf)} {workers} {lst(moves)} {o(cap)} {lm1} {o(quantis)} {ees} {engs} {o(seed)} {o(acc)}"
+    return (f"{op} {lst(intf)} {workers} {lst(moves)} {o(cap)} {lm1} {o(quantis)} {ees} {engs} {o(seed)} {o(acc)} "
+            f"{o(size)}")
 
 
 def num(x):
@@ -194,7 +208,15 @@ def py_valid(cfg):
     l = tis.get("lambda_minus_one", False)
     if l is not False and (n == 0 or not (l < intf[0])):
         bad.append("lambda-minus-one-not-below-first")
+    # a restart state holds one slot per ensemble (/repo 971ccbc); nothing to ask without a [current] table
+    cur = cfg.get("current") or {}
+    if "size" in cur and cur["size"] != n:
+        bad.append(SIZE_CLAUSE)
     return bad
+
+
+SIZE_CLAUSE = "current-size-differs-from-interfaces"
+SIZE_SIG = "C18:restart:current-size-differs-from-interfaces"
 
 
 DEFAULT_KEYS = (("simulation", "ensemble_engines"), ("simulation", "seed"), ("simulation", "tis_set", "quantis"),
@@ -379,6 +401,37 @@ class Real:
         with open(self.restart_data, "w") as f:
             f.write("# " + "=" * 58 + "\n# \txxx\tlen\tmax OP\t\t000\t001\t002\n# " + "=" * 58 + "\n")
         return problem
+
+    def current_for(self, n):
+        """a `[current]` table written for `n` interfaces: by the library itself (fresh setup_config of a valid
+        input with n interfaces, REPEX_state, initiate_ensembles, load_paths, write_toml — before any pick, so no job
+        is in flight) for 2 ≤ n ≤ 5, else the table setup_config would create.  Leaves n stored paths in ./load."""
+        cache = self.__dict__.setdefault("_currents", {})
+        if n in cache:
+            return copy.deepcopy(cache[n])
+        cur = None
+        if 2 <= n <= 5:
+            try:
+                import tomli
+                from infretis.classes.path import load_paths_from_disk
+                from infretis.classes.repex import REPEX_state
+                c = mkcase(tuple(range(0, 2 * n, 2)), 1, (0,) * n)
+                code, cfg = self.setup(to_dict(c, self.tmp))
+                st = REPEX_state(cfg, minus=True)
+                st.initiate_ensembles()
+                store_paths(initial_paths(cfg))
+                st.load_paths(load_paths_from_disk(cfg))
+                st.write_toml()
+                with open("restart.toml", "rb") as f:
+                    cur = tomli.load(f)["current"]
+            except Exception as e:  # noqa: BLE001
+                if type(e).__name__ == "Timeout":
+                    raise
+                cur = None
+        if cur is None:
+            cur = {"traj_num": n, "cstep": 0, "active": list(range(n)), "locked": [], "size": n, "frac": {}}
+        cache[n] = cur
+        return copy.deepcopy(cur)
 
     def setup_restart(self, d, two_files=False):
         """the real setup_config on a restart file (or on an input file with a matching restart file next to it)"""
@@ -648,10 +701,12 @@ def doubled_case(c):
     return Case((tuple(2 * x for x in c[0]), c[1], c[2], None if c[3] is None else 2 * c[3], lm1) + tuple(c[5:]))
 
 
-def load_line(c, orders):
-    """request for Infretis.Config.startUp (setup_config ; setup_internal): the paths' order values (doubled) first"""
+def load_line(c, orders, size=None, op="load"):
+    """request for Infretis.Config.startUp (setup_config ; setup_internal): the paths' order values (doubled) first;
+    `size` = the [current].size of a restart configuration; op `loadasis` = the code before /repo 971ccbc"""
     d = lambda x: int(round(2 * x))  # noqa: E731
-    return f"load {len(orders)} " + " ".join(lst([d(x) for x in ops]) for ops in orders) + " " + to_line("x", doubled_case(c))[2:]
+    return (f"{op} {len(orders)} " + " ".join(lst([d(x) for x in ops]) for ops in orders) + " "
+            + to_line("x", doubled_case(c), size)[2:])
 
 
 def show_loaded(info):
@@ -683,7 +738,12 @@ def initialise(cfg, family="on-own", info=None):
             return stage, "wrong-number-of-ensembles", st, orders, rows
         stage = "load_paths"
         orders = initial_orders(cfg, family)
-        store_paths([mkpath(ops, k) for k, ops in enumerate(orders)])
+        gen = [mkpath(ops, k) for k, ops in enumerate(orders)]
+        for p in gen[1:]:
+            cbad = check_interfaces_violation(cfg, p)
+            if cbad:
+                return "generated-path", cbad, st, orders, rows
+        store_paths(gen)
         paths = load_paths_from_disk(cfg)
         st.load_paths(paths)
         rows = [tuple(float(x) for x in p.weights) for p in paths[1:]]
@@ -881,13 +941,26 @@ RESTART_VARIANTS = {
 }
 
 
-def restart_dict(real, c, variant):
-    """the library-written restart file with its validated tables edited into case `c`"""
+def mismatch_size(n, k):
+    """a number of interfaces another restart state could have been written for"""
+    cands = [x for x in (n + 1, n - 1, 3, 2) if 2 <= x <= 5 and x != n]
+    return cands[k % len(cands)]
+
+
+def restart_dict(real, c, variant, size=None):
+    """a library-written restart file with its validated tables edited into case `c`.  `size`: the number of
+    interfaces the `[current]` table was written for — None = the historical base table (3 interfaces, one job in
+    flight), else the table the library writes for that many interfaces (the case's own number, or a mismatching one:
+    an interface added to / removed from a restart file)"""
     cstep, rfrom, steps, present = RESTART_VARIANTS[variant]
     d = to_dict(c, real.tmp)
     d["simulation"]["steps"] = steps
     d["output"]["data_file"] = real.restart_data
-    cur = copy.deepcopy(real.base_restart["current"])
+    if d["output"].get("pattern"):
+        # a restart file of a run with output.pattern carries the key setup_config set on the fresh start
+        # (write_toml dumps the whole configuration); without it pattern_header / write_pattern raise KeyError
+        d["output"]["pattern_file"] = "pattern.txt"
+    cur = copy.deepcopy(real.base_restart["current"]) if size is None else real.current_for(size)
     cur["cstep"] = cstep
     cur.pop("restarted_from", None)
     if rfrom is not None:
@@ -898,9 +971,10 @@ def restart_dict(real, c, variant):
     return d
 
 
-def restart_line(c, variant):
+def restart_line(c, variant, size=3):
     cstep, rfrom, steps, present = RESTART_VARIANTS[variant]
-    return f"restart {cstep} {'-' if rfrom is None else rfrom} {steps} {1 if present else 0} " + to_line("x", c)[2:]
+    return (f"restart {cstep} {'-' if rfrom is None else rfrom} {steps} {1 if present else 0} "
+            + to_line("x", c, size)[2:])
 
 
 
@@ -929,9 +1003,11 @@ def file_tokens(real, c, d, table, present=True):
     else:
         rf = cur.get("restarted_from")
         curs = f"C {cur['cstep']} {'-' if rf is None else rf} {d['simulation']['steps']} {1 if present else 0}"
-    cfg = to_line("x", c)[2:].split(" ")
+    cfg = to_line("x", c, None if cur is None else cur.get("size"))[2:].split(" ")
+    # bit 0: output.pattern, bit 1: the file already has the key output.pattern_file
+    pat = (1 if d.get("output", {}).get("pattern") else 0) + (2 if "pattern_file" in d.get("output", {}) else 0)
     return (f"F {len(secs)} " + " ".join(f"{hexs(k)} {v}" for k, v in secs)
-            + f" {1 if d.get('output', {}).get('pattern') else 0} {curs} {len(cfg)} " + " ".join(cfg)).replace("  ", " ")
+            + f" {pat} {curs} {len(cfg)} " + " ".join(cfg)).replace("  ", " ")
 
 
 def show_files_outcome(real, cfg_or_err, before_files):
@@ -965,18 +1041,22 @@ def run_two_files(ctx, real):
     table = {}
     for c in bases:
         for iv in ("missing", "plain", "steps", "empty-table", "extra-table", "pattern"):
-            for rv in ("missing", "match", "steps", "extra-table", "finished", "path-missing", "lacks-table"):
+            for rv in ("missing", "match", "steps", "extra-table", "finished", "path-missing", "lacks-table",
+                       "other-size"):
                 for same in (False, True):
                     if same and (iv != "plain" or rv == "missing"):
                         continue
                     if iv == "missing" and rv not in ("missing", "match"):
                         continue
                     variant = {"finished": "finished", "path-missing": "path-missing"}.get(rv, "go")
+                    # the restart file's [current] table: written for the case's own number of interfaces, or
+                    # (rv = other-size) for another number
+                    rsize = mismatch_size(len(c[0]), 0) if rv == "other-size" else len(c[0])
                     if rv == "missing":
                         d = to_dict(c, real.tmp)
                     else:
                         # the input file the restart file was written from (same tables, no [current])
-                        d = {k: v for k, v in restart_dict(real, c, variant).items() if k != "current"}
+                        d = {k: v for k, v in restart_dict(real, c, variant, rsize).items() if k != "current"}
                     d["output"]["data_dir"] = real.tmp
                     if iv == "steps":
                         d["simulation"]["steps"] = 11
@@ -988,7 +1068,7 @@ def run_two_files(ctx, real):
                         d["output"]["pattern"] = True
                     rd, present = None, True
                     if rv != "missing":
-                        rd = restart_dict(real, c, variant)
+                        rd = restart_dict(real, c, variant, rsize)
                         rd["output"]["data_dir"] = real.tmp
                         if iv == "pattern":
                             rd["output"]["pattern"] = True
@@ -1032,7 +1112,7 @@ def run_two_files(ctx, real):
                     if not isinstance(res, str) and res is not None:
                         bad = safe_valid(res)
                         if bad:
-                            fail_once(ctx, f"C18:two-files:{bad[0]}",
+                            fail_once(ctx, SIZE_SIG if bad == [SIZE_CLAUSE] else f"C18:two-files:{bad[0]}",
                                       f"setup_config(input file, restart file) accepted a configuration violating: "
                                       f"{', '.join(bad)}", dict(obj, violated=bad))
                     lines.append("files " + ("1 " if same else "0 ")
@@ -1046,6 +1126,154 @@ def run_two_files(ctx, real):
                 ctx.disagree({"fn": "setup_config(inp, re_inp) vs Infretis.Config.setupConfigFiles", "case": obj,
                               "request": line}, code, m)
     ctx.extra["two_file_cases"] = ctx.extra.get("two_file_cases", 0) + len(lines)
+
+
+def run_size_block(ctx, real):
+    """block S: the real setup_internal called DIRECTLY (check_config bypassed) on valid configurations whose
+    [current] table was written for m = 2..5 interfaces, against Infretis.Config.startUpAsIs (the start-up without the
+    size test of /repo 971ccbc: old check_config ; setup_internal with the state sized by [current].size).  For m = n
+    the state after load_paths is compared, for m ≠ n the error kind (ValueError of add_traj: the weight vector is
+    not as wide as the state).  This is what an accepted size mismatch did before the repair; the property predicate
+    for the repaired code (such a configuration is rejected) is judged on the restart route."""
+    bases = [mkcase((0, 2, 4), 1, (0, 0, 0)), mkcase((0, 2), 1, (0, 0)), mkcase((0, 2, 4, 6), 1, (0, 0, 0, 0)),
+             mkcase((0, 2, 4), 1, (0, 0, 1), cap=3, lm1=-1), mkcase((-2, 0, 2, 4, 6), 2, (0, 1, 0, 0, 1), cap=5)]
+    lines, shown, objs = [], [], []
+    for c in bases:
+        n = len(c[0])
+        code, cfg0 = real.setup(to_dict(c, real.tmp))
+        if cfg0 is None:
+            continue
+        for m in (2, 3, 4, 5):
+            cfg = copy.deepcopy(cfg0)
+            cfg["current"] = real.current_for(m)
+            orders = initial_orders(cfg, "on-own")
+            orders = orders + [orders[-1]] * max(0, m - n)     # one stored path per active path of the table
+            try:
+                store_paths([mkpath(ops, k) for k, ops in enumerate(orders)])
+                md_items, st = real.setup_internal(cfg)
+                out = show_loaded({"md": {"cap": md_items["cap"], "interfaces": list(md_items["interfaces"]),
+                                          "mc_moves": list(md_items["mc_moves"])},
+                                   "matrix": [[float(x) for x in r] for r in st.state.tolist()]})
+            except Exception as e:  # noqa: BLE001
+                if type(e).__name__ == "Timeout":
+                    raise
+                out = err_kind(e)
+            ctx.count(1, branch="size-block:" + ("aligned" if m == n else "other-size") + ":" + out.split(" ")[0])
+            if m == n and not out.startswith("ok"):
+                fail_once(ctx, "C18:accepted-valid-but-init-fails:setup_internal",
+                          f"setup_internal on a valid configuration with its own [current] table raises {out}",
+                          {"case": case_obj(c), "current_size": m})
+            lines.append(load_line(c, orders[:max(m, n)], m, op="loadasis"))
+            shown.append(out)
+            objs.append({"case": case_obj(c), "current_size": m, "route": "setup_internal-directly"})
+    if ctx._driver_ok:
+        for obj, line, code, mo in zip(objs, lines, shown, safe_driver(ctx, lines)):
+            if code != mo:
+                ctx.disagree({"fn": "setup_internal (state sized by [current].size) vs Infretis.Config.startUpAsIs",
+                              "case": obj, "request": line}, code, mo)
+    ctx.extra["size_block_cases"] = ctx.extra.get("size_block_cases", 0) + len(lines)
+
+
+def run_library_restarts(ctx, real):
+    """block H2: restart files written by the library itself (fresh setup_config, REPEX_state, initiate_ensembles,
+    load_paths, the real write_toml — they carry the defaults, output.data_file and, with output.pattern,
+    output.pattern_file), read back (a) directly, (b) next to the input file they came from (whose tables lack the
+    defaults: the restart file is not used, fresh start), (c) next to an input file with the same tables; model:
+    Infretis.Config.setupConfigFiles.  (a) then goes through the real setup_internal and the first picks."""
+    import tomli
+    import tomli_w
+    from infretis.classes.path import load_paths_from_disk
+    from infretis.classes.repex import REPEX_state
+    bases = [mkcase((0, 2, 4), 1, (0, 0, 1), cap=3), mkcase((0, 2, 4), 1, (0, 0, 0), opts=(("pattern", 1),)),
+             mkcase((0, 2, 4), 0, (0, 0, 0), opts=(("pattern", 1),)),
+             mkcase((-2, 0, 2, 4), 2, (0, 1, 0, 0), cap=0, lm1=-3, quantis=0, seed=3, opts=(("pattern", 1),)),
+             mkcase((0, 2), 1, (0, 0), lm1=-1)]
+    lines, shown, objs = [], [], []
+    table = {}
+    for c in bases:
+        d = to_dict(c, real.tmp)
+        for f in ("h_inp.toml", "h_inp2.toml", "restart.toml"):
+            if os.path.exists(f):
+                os.remove(f)
+        with open("h_inp.toml", "wb") as f:
+            tomli_w.dump(d, f)
+        obj0 = {"case": case_obj(c), "route": "library-restart"}
+        try:
+            cfg = real.S.setup_config("h_inp.toml", "restart.toml")
+            st = REPEX_state(cfg, minus=True)
+            st.initiate_ensembles()
+            store_paths(initial_paths(cfg))
+            st.load_paths(load_paths_from_disk(cfg))
+            st.write_toml()
+            with open("restart.toml", "rb") as f:
+                rd = tomli.load(f)
+        except Exception as e:  # noqa: BLE001
+            if type(e).__name__ == "Timeout":
+                raise
+            fail_once(ctx, "C18:accepted-valid-but-init-fails:write-restart",
+                      f"a valid configuration could not be started and written to restart.toml: {err_kind(e)}", obj0)
+            continue
+        fresh_files = set(f for f in os.listdir(real.tmp) if f.startswith("infretis_data"))
+        with open("h_inp2.toml", "wb") as f:
+            tomli_w.dump({k: v for k, v in rd.items() if k != "current"}, f)
+        for entry, inp_name, d_inp, same in (("direct", "restart.toml", rd, True), ("raw-input", "h_inp.toml", d, False),
+                                             ("matching-input", "h_inp2.toml",
+                                              {k: v for k, v in rd.items() if k != "current"}, False)):
+            before = set(f for f in os.listdir(real.tmp) if f.startswith("infretis_data"))
+            try:
+                res = real.S.setup_config(inp_name, "restart.toml")
+            except Exception as e:  # noqa: BLE001
+                if type(e).__name__ == "Timeout":
+                    raise
+                res = err_kind(e)
+            try:
+                out = show_files_outcome(real, res, before)
+            except Exception as e:  # noqa: BLE001
+                out = "malformed-config:" + err_kind(e)
+            obj = dict(obj0, entry=entry)
+            ctx.count(1, branch="library-restart:" + out.split(" ")[0])
+            ctx.hit(f"library-restart:{entry}:{out.split(' ')[0]}:pattern_file={'pattern=1' in out}")
+            if not isinstance(res, str) and res is not None:
+                bad = safe_valid(res)
+                if bad:
+                    fail_once(ctx, SIZE_SIG if bad == [SIZE_CLAUSE] else f"C18:two-files:{bad[0]}",
+                              f"setup_config accepted a configuration violating: {', '.join(bad)}", dict(obj, violated=bad))
+                elif entry == "direct":
+                    # the property's last sentence: re-reading the restart file the program wrote is a fixed point …
+                    b, a = canon(strip_restart(rd)), canon(strip_restart(res))
+                    if b != a:
+                        diff = sorted(k for k in set(b) | set(a) if b.get(k) != a.get(k))
+                        fail_once(ctx, "C18:restart-not-a-fixed-point",
+                                  f"restart.toml read back differs in sections {diff}", dict(obj, differing=diff))
+                    # … and it initialises again (pattern_header of a restarted run included)
+                    stage, ferr, _, mbad, orders = restart_initialise(real, copy.deepcopy(res))
+                    ctx.hit(f"library-restart:init:{stage}{':' + ferr if ferr else ''}")
+                    if ferr is not None:
+                        fail_once(ctx, f"C18:restart-route:accepted-valid-but-init-fails:{stage}",
+                                  f"the restart file the library wrote is accepted but {stage} raises {ferr}",
+                                  dict(obj, stage=stage, error=ferr))
+                    elif mbad:
+                        fail_once(ctx, "C18:restart-route:md_items-not-the-configuration",
+                                  "setup_internal on the library's own restart file hands on " + mbad[0], dict(obj, error=mbad[0]))
+            # the files' cfg tokens are those of the case: the restart file holds the normalised values, and the
+            # model normalises again (normalise_idempotent), so the outcome is the same
+            lines.append("files " + ("1 " if same else "0 ") + file_tokens(real, c, d_inp, table, True) + " "
+                         + (file_tokens(real, c, rd, table, True) if not same else "-"))
+            shown.append(out)
+            objs.append(obj)
+            for f in set(f for f in os.listdir(real.tmp) if f.startswith("infretis_data")) - before:
+                os.remove(os.path.join(real.tmp, f))
+        for f in fresh_files:
+            try:
+                os.remove(os.path.join(real.tmp, f))
+            except FileNotFoundError:
+                pass
+    if ctx._driver_ok:
+        for obj, line, code, m in zip(objs, lines, shown, safe_driver(ctx, lines)):
+            if code != m:
+                ctx.disagree({"fn": "setup_config on a library-written restart file vs Infretis.Config.setupConfigFiles",
+                              "case": obj, "request": line}, code, m)
+    ctx.extra["library_restart_cases"] = ctx.extra.get("library_restart_cases", 0) + len(lines)
 
 
 # --------------------------------------------------------------------------- type confusion TOML allows
@@ -1085,22 +1313,18 @@ TYPE_MODS = {
     "no-shooting_moves": (lambda d: d["simulation"].pop("shooting_moves"), "typed"),
     "no-interfaces": (lambda d: d["simulation"].pop("interfaces"), "typed"),
 }
-# what the UNCHANGED library does with some of these (reported to the coordinator, not yet recorded as findings)
+# What the UNCHANGED library (/repo HEAD) still gets wrong on these inputs: reported to the coordinator, recorded in
+# the evidence under `pending_findings` on every run, not yet recorded in known_findings.json.  ONLY open defects may
+# be listed here — a signature stays on this list exactly as long as /repo HEAD shows it; the defects repaired by
+# adf2044 (`interface_cap = false`), d56000a (NaN) and 2128e76 (float workers) were removed from it: if they come
+# back, block T fails with the concrete input (and corpus/C18/type-*.json replay them first).
 PENDING_FINDINGS |= {
-    # NaN compares false with everything: sorted() leaves it where it is, no test fires
-    "C18:type:interfaces-nan-middle:accepted-invalid:interfaces-unsorted",
-    "C18:type:interfaces-nan-first:accepted-invalid:interfaces-unsorted",
-    "C18:type:interfaces-nan-last:accepted-invalid:interfaces-unsorted",
-    "C18:type:cap-nan:accepted-invalid:cap-outside-interfaces",
-    "C18:type:lm1-nan:accepted-invalid:lambda-minus-one-not-below-first",
-    # `interface_cap = false` is check_config's own "no cap" sentinel, but REPEX_state.cap / calc_cv_vector /
-    # wire_fencing read it as the number 0
-    "C18:type:cap-false:accepted-invalid:cap-below-wf-interface",
-    "C18:type:cap-false:accepted-invalid:cap-outside-interfaces",
-    "C18:type:cap-false:accepted-invalid:cap-zero-skipped",
-    # a float number of workers passes `n_workers > n_ens - 1` and fails at the first picks
-    "C18:type:workers-float-integral:accepted-but-init-fails:first-picks",
-    "C18:type:workers-float:accepted-but-init-fails:first-picks",
+    # no `shooting_moves` key at all (0 moves for n ensembles): KeyError from check_config's first lines, not a
+    # TOMLConfigError
+    "C18:type:no-shooting_moves:invalid-rejected-with-key-error:too-few-shooting-moves",
+    # interfaces given as strings compare among themselves: ["0", "1"] passes every test, load_paths then raises
+    # TypeError comparing a string with the path's order values
+    "C18:type:interfaces-strings:accepted-but-init-fails:load_paths",
 }
 
 
@@ -1115,17 +1339,21 @@ def pending_or_fail(ctx, sig, what, rep):
         fail_once(ctx, sig, what, rep)
 
 
-def run_type_confusion(ctx, real, lcases):
+def run_type_confusion(ctx, real, lcases, only=None):
     """block T: values of another TOML type in the validated fields (ints for floats, floats / strings / bools for
     integers, NaN and inf, strings and nested lists for interfaces, missing tables).  Ints for floats must behave
     exactly like the float configuration (judged and compared with the model like every other case); the rest is
     outside the Lean model (Int-valued): judged by `typed_violations` and the real initialisation only."""
     bases = [mkcase((0, 2, 4), 2, (0, 0, 1), cap=3, lm1=-1), mkcase((-2, 0, 2, 4), 1, (0, 1, 0, 0), cap=0, lm1=-3),
              mkcase((0, 2), 1, (0, 0))]
+    if only is not None:
+        bases = [only[0]]          # replay of one recorded input: (case, name of the modification)
     n = 0
     for c in bases:
         ref_code, ref_cfg = real.setup(to_dict(c, real.tmp))
         for name, (modify, expect) in TYPE_MODS.items():
+            if only is not None and name != only[1]:
+                continue
             d = to_dict(c, real.tmp)
             try:
                 modify(d)
@@ -1168,9 +1396,10 @@ def run_type_confusion(ctx, real, lcases):
                                     dict(rep, violated=bad))
                     continue
                 try:
+                    # test paths from the interfaces read as numbers (a string "1" is read as 1: whatever the
+                    # configuration holds, an accepted one must start with valid paths for its interfaces)
                     orders = initial_orders(cfg, "on-own")
-                    buildable = all(isinstance(x, (int, float)) and not isinstance(x, bool)
-                                    for x in cfg["simulation"]["interfaces"]) and all(isinstance(x, float) and x == x and abs(x) != float("inf") for o in orders for x in o)
+                    buildable = all(isinstance(x, float) and x == x and abs(x) != float("inf") for o in orders for x in o)
                 except Exception:  # noqa: BLE001
                     buildable = False
                 if not buildable:
@@ -1183,9 +1412,13 @@ def run_type_confusion(ctx, real, lcases):
                                     f"{stage} raises {ferr}", dict(rep, stage=stage, error=ferr))
                 continue
             try:
-                bad = py_valid(py_normalised(d))
-            except Exception:  # noqa: BLE001  (values that cannot be compared: outside the property's list)
-                bad = []
+                d2 = copy.deepcopy(d)
+                if "shooting_moves" not in d2.get("simulation", {"shooting_moves": 0}):
+                    d2["simulation"]["shooting_moves"] = []      # no key = no shooting move for any ensemble
+                bad = py_valid(py_normalised(d2))
+            except Exception:  # noqa: BLE001  (a missing table / values that cannot be compared: outside the
+                bad = []               # property's list — see the assumptions)
+                ctx.hit(f"type:{name}:not-judged-against-the-list")
             if bad and code != "err:config":
                 pending_or_fail(ctx, f"C18:type:{name}:invalid-rejected-with-{code.replace('err:', '')}-error:{bad[0]}",
                                 f"the configuration with {name} ({', '.join(bad)}) is rejected with {code}, not "
@@ -1304,10 +1537,8 @@ def gen_cases(ctx):
         n = len(b["intf"])
         for w in (0, 1, n - 1):
             for o in optsets:
-                if w == 0 and dict(o).get("pattern"):
-                    # unchanged code: output.pattern with workers = 0 makes setup_internal raise TypeError in
-                    # pattern_header (reported to the coordinator as a witness; not generated)
-                    continue
+                # (output.pattern with workers = 0 is the one setting in which pattern_header writes its header on a
+                #  fresh start: fixed by /repo 8f18ef6, generated and run through the real setup_internal since)
                 for sd in (None, 0, 7):
                     for q in (None, 1):
                         if q and b["lm1"] not in ("A", "F", 0):
@@ -1342,6 +1573,8 @@ WITNESSES = [
     ("ensembleEnginesShort", mkcase((0, 2), 1, (0, 0), ee=(("engine",),), engines=(("engine", 1, None, 7),))),
     ("ensembleWithoutEngine", mkcase((0, 2), 1, (0, 0), ee=((), ()), engines=(("engine", 1, None, 7),))),
     ("good", mkcase((0, 2, 4), 2, (0, 0, 1), cap=3, lm1=-1, quantis=0)),
+    # repaired by 8f18ef6: output.pattern with no worker left to initiate → pattern_header writes (wrote: TypeError)
+    ("workersZeroPattern", mkcase((0, 2, 4), 0, (0, 0, 0), opts=(("pattern", 1),))),
 ]
 
 
@@ -1520,6 +1753,19 @@ def judge(ctx, real, c, code_setup, cfg, do_init, do_restart, families=(), wcase
                                                 "zero" if configured_cap(cfg) == 0 else
                                                 "on-interface" if configured_cap(cfg) in cfg["simulation"]["interfaces"]
                                                 else "between"))
+            if err is None and not bad and st is not None and (cfg.get("output", {}).get("pattern") or
+                                                               obj["opts"].get("pattern")):
+                # output.pattern: the whole real setup_internal (pattern_header included) on the fresh configuration
+                fstage, fferr, _, fmbad, forders = restart_initialise(real, strip_restart(cfg))
+                ctx.hit(f"init[setup_internal,pattern]:{fstage}{':' + fferr if fferr else ''}")
+                if fferr is not None:
+                    fail_once(ctx, f"C18:accepted-valid-but-init-fails:{fstage}",
+                              f"accepted configuration with output.pattern raises {fferr} in the real {fstage}",
+                              {"case": obj, "stage": fstage, "error": fferr, "orders": forders})
+                elif fmbad:
+                    fail_once(ctx, "C18:md_items-not-the-configuration",
+                              "setup_internal on an accepted configuration hands on " + fmbad[0],
+                              {"case": obj, "error": fmbad[0]})
             if err is None and do_restart and st is not None:
                 r, before, again, ierr = restart_roundtrip(real, st)
                 ctx.hit(f"restart-roundtrip:{r}")
@@ -1571,10 +1817,61 @@ def judge(ctx, real, c, code_setup, cfg, do_init, do_restart, families=(), wcase
     return "invalid-rejected"
 
 
-def judge_restart(ctx, real, c, variant, two_files, code, cfg, d_in=None):
+def restart_initialise(real, cfg):
+    """the real setup_internal on a configuration the restart branch of setup_config returned (valid initial paths
+    for its interfaces stored first, one per active path), then the first picks →
+    (stage, error | None, canonical form of the state after load_paths | None, violations of md_items / W matrix)"""
+    stage = "store-paths"
+    shown, mbad = None, []
+    try:
+        orders = initial_orders(cfg, "on-own")
+        paths = [mkpath(ops, k) for k, ops in enumerate(orders)]
+        for p in paths[1:]:
+            cbad = check_interfaces_violation(cfg, p)
+            if cbad:
+                return "generated-path", cbad, None, [], orders
+        store_paths(paths)
+        stage = "setup_internal"
+        md_items, st = real.setup_internal(cfg)
+        shown = show_loaded({"md": {"cap": md_items["cap"], "interfaces": list(md_items["interfaces"]),
+                                    "mc_moves": list(md_items["mc_moves"])},
+                             "matrix": [[float(x) for x in r] for r in st.state.tolist()]})
+        if len(st.ensembles) != len(cfg["simulation"]["interfaces"]):
+            return stage, "wrong-number-of-ensembles", shown, [], orders
+        mbad = md_items_violations(cfg, md_items, st)
+        stage = "first-picks"
+        err = first_picks(st, cfg)
+        return (stage, err, shown, mbad, orders) if err else ("done", None, shown, mbad, orders)
+    except Exception as e:  # noqa: BLE001
+        if type(e).__name__ == "Timeout":
+            raise
+        return stage, err_kind(e), shown, mbad, locals().get("orders")
+
+
+def check_interfaces_violation(cfg, p):
+    """the generated plus path is a valid initial path by the library's own Path.check_interfaces for its ensemble
+    interfaces (λ0, λ_i, λ_N): starts left, ends left or right, crosses its interface"""
+    try:
+        intf = cfg["simulation"]["interfaces"]
+        if not all(isinstance(x, (int, float)) and not isinstance(x, bool) for x in intf):
+            return None       # block T: interfaces of another type are judged by what the library does with them
+        i = p.path_number - 1
+        start, end, middle, _ = p.check_interfaces([intf[0], intf[i], intf[-1]])
+        if start != "L" or end not in ("L", "R") or middle != "M":
+            return f"check_interfaces says start={start} end={end} middle={middle} for the generated [{i}+] path"
+    except Exception as e:  # noqa: BLE001
+        if type(e).__name__ == "Timeout":
+            raise
+        return "check_interfaces raises " + err_kind(e)
+    return None
+
+
+def judge_restart(ctx, real, c, variant, two_files, code, cfg, d_in=None, size=None, do_init=False, rlcases=None):
     """property predicate on the real outcome of the restart route"""
     obj = case_obj(c)
     rep = {"case": obj, "route": "restart", "variant": variant, "two_files": two_files}
+    if size is not None:
+        rep["current_size"] = size
     if code == "not-the-restart-branch":
         fail_once(ctx, "C18:restart-route:restart-file-ignored",
                   "setup_config(input, restart) with equal settings did not take the restart branch", rep)
@@ -1591,14 +1888,41 @@ def judge_restart(ctx, real, c, variant, two_files, code, cfg, d_in=None):
                 fail_once(ctx, "C18:restart-route:setup_config-changes-settings",
                           f"on the restart branch setup_config changed: {'; '.join(chg[:4])}", dict(rep, changed=chg[:8]))
         if bad:
-            fail_once(ctx, f"C18:restart-route:{bad[0]}",
-                      f"setup_config accepted a restart file whose configuration violates: {', '.join(bad)}",
+            only_size = bad == [SIZE_CLAUSE]
+            fail_once(ctx, SIZE_SIG if only_size else f"C18:restart-route:{bad[0]}",
+                      f"setup_config accepted a restart file whose configuration violates: {', '.join(bad)}"
+                      + (f" ([current].size = {cfg['current'].get('size')}, {len(cfg['simulation']['interfaces'])} "
+                         "interfaces)" if only_size else ""),
                       dict(rep, violated=bad, expect="rejected with TOMLConfigError"))
+            if only_size and do_init:
+                # what the accepted configuration then does (recorded in the histogram; the failure is the acceptance)
+                stage, ferr, _, _, _ = restart_initialise(real, copy.deepcopy(cfg))
+                ctx.hit(f"restart-init:size-mismatch:{stage}{':' + ferr if ferr else ''}")
             return "restart:accepted-invalid"
+        if do_init:
+            # accepted ⇒ initialises, on the restart route too: the real setup_internal and the first picks
+            stage, ferr, shown, mbad, orders = restart_initialise(real, copy.deepcopy(cfg))
+            ctx.hit(f"restart-init:{variant}:{stage}{':' + ferr if ferr else ''}")
+            if stage == "generated-path":
+                fail_once(ctx, "C18:harness:generated-initial-path-not-valid", ferr, dict(rep, orders=orders))
+            elif ferr is not None:
+                fail_once(ctx, f"C18:restart-route:accepted-valid-but-init-fails:{stage}",
+                          f"the restart configuration is accepted by setup_config but {stage} raises {ferr} "
+                          "(valid initial paths stored for its interfaces)",
+                          dict(rep, stage=stage, error=ferr, orders=orders))
+            elif mbad:
+                fail_once(ctx, "C18:restart-route:md_items-not-the-configuration",
+                          "setup_internal on an accepted restart configuration hands on " + mbad[0],
+                          dict(rep, error=mbad[0], orders=orders))
+            if rlcases is not None and shown is not None and orders is not None:
+                rlcases.append((dict(rep), load_line(c, orders, size), shown))
         return "restart:accepted"
     if code == "none":
         return "restart:none"
-    bad = py_valid(py_normalised(to_dict(c, real.tmp)))
+    rd_ref = to_dict(c, real.tmp)
+    if size is not None:
+        rd_ref["current"] = {"size": size}
+    bad = py_valid(py_normalised(rd_ref))
     if bad and code != "err:config":
         fail_once(ctx, f"C18:restart-route:invalid-rejected-with-{code.replace('err:', '')}-error:"
                   + ("empty-interfaces" if not c[0] else bad[0]),
@@ -1642,8 +1966,9 @@ def _run(ctx, real):
                 "{absent,false,-3,-2,-1,0,1,2,5} × quantis ∈ {absent,false,true}; (C) interfaces × workers -1..n+1; "
                 "(D) ensemble_engines (absent, [], every list of length n-1..n+1 over 5 per-ensemble choices) × engine "
                 "table subsets × 7 class/input_path profiles × quantis; (E) seeded random mix of all fields. "
-                "Every case also goes through the restart route (library-written [current] table kept, validated tables "
-                "edited into the case; quick: ≥ 20 per class of (violated clauses, outcome) and every 6th case; thorough: "
+                "Every case also goes through the restart route ([current] table written by the library for the case's own "
+                "number of interfaces, every third time for another number, validated tables edited into the case; accepted "
+                "ones initialised through the real setup_internal; quick: ≥ 20 per class of (violated clauses, outcome) and every 6th case; thorough: "
                 "all), with 5 restart variants and both entry forms. Distinct = distinct case tuples; non-trivial = every case except accepted ones without cap, λ₋₁, "
                 "quantis and ensemble_engines.")
     cases = [c for _, c in WITNESSES] + gen_cases(ctx)
@@ -1676,6 +2001,8 @@ def _run(ctx, real):
     variants = list(RESTART_VARIANTS)
     init_budget = 8000 if ctx.quick else 40000
     restart_budget = 150 if ctx.quick else 1500
+    rinit_budget = 2500 if ctx.quick else 20000
+    rlcases = []
     icases = []
     lcases = []
     ocases = []
@@ -1749,12 +2076,30 @@ def _run(ctx, real):
         if k < len(WITNESSES) or class_seen[cls] <= per_class or not ctx.quick or k % 6 == 0:
             variant = "go" if (k % 9) else variants[(k // 9) % len(variants)]
             two_files = (k % 13 == 5)
-            rd = restart_dict(real, c, variant)
+            # the [current] table: written by the library for the case's own number of interfaces, every third time
+            # for another number (an interface added to / removed from a restart file), now and then the historical
+            # base table (3 interfaces, a job in flight)
+            n_c = len(c[0])
+            rr = st_["n_rr"] = st_.get("n_rr", -1) + 1
+            if rr % 3 == 1:
+                size = mismatch_size(n_c, rr // 3)
+            elif rr % 11 == 0 and n_c == 3:
+                size = None
+            else:
+                size = n_c if n_c <= 5 else 3
+            rd = restart_dict(real, c, variant, size)
+            rsize = rd["current"]["size"]
             rcode, rcfg = real.setup_restart(rd, two_files)
-            rbranch = judge_restart(ctx, real, c, variant, two_files, rcode, rcfg, rd)
-            ctx.count(1, branch=rbranch, restart_variant=variant)
+            st_["n_rinit"] = st_.get("n_rinit", 0)
+            do_rinit = rcfg is not None and st_["n_rinit"] < rinit_budget
+            if do_rinit:
+                st_["n_rinit"] += 1
+            rbranch = judge_restart(ctx, real, c, variant, two_files, rcode, rcfg, rd, rsize, do_rinit,
+                                    None if nomodel else rlcases)
+            ctx.count(1, branch=rbranch, restart_variant=variant,
+                      restart_current="own-size" if rsize == n_c else "other-size")
             if not nomodel:
-                rcases.append((k, variant, two_files, rcode))
+                rcases.append((k, variant, two_files, rcode, rsize))
         ctx.count(1, branch=branch, outcome=code_setup.split(" ")[0])
         if not (cfg is not None and c[3] is None and c[4] == "A" and c[5] is None and c[6] is None):
             ctx.distinct(c)
@@ -1779,6 +2124,8 @@ def _run(ctx, real):
     try:
         run_type_confusion(ctx, real, lcases)
         run_two_files(ctx, real)
+        run_library_restarts(ctx, real)
+        run_size_block(ctx, real)
     except Exception as e:  # noqa: BLE001
         if type(e).__name__ == "Timeout":
             raise
@@ -1788,11 +2135,19 @@ def _run(ctx, real):
                   f"the two-file block raised {type(e).__name__}: {e} (at {where.name}:{where.lineno})",
                   {"case": case_obj(cases[0]), "route": "two-files"})
     if have_model and rcases:
-        rout = safe_driver(ctx, [restart_line(cases[k], variant) for (k, variant, _, _) in rcases])
-        for (k, variant, two_files, rcode), m in zip(rcases, rout):
+        rout = safe_driver(ctx, [restart_line(cases[k], variant, rsize) for (k, variant, _, _, rsize) in rcases])
+        for (k, variant, two_files, rcode, rsize), m in zip(rcases, rout):
             if rcode != m:
                 ctx.disagree({"fn": "setup_config(restart file)", "variant": variant, "two_files": two_files,
-                              "case": case_obj(cases[k])}, rcode, m)
+                              "current_size": rsize, "case": case_obj(cases[k])}, rcode, m)
+    if have_model and rlcases:
+        rlout = safe_driver(ctx, [line for (_, line, _) in rlcases])
+        for (obj, line, shown), m in zip(rlcases, rlout):
+            if shown != m:
+                ctx.disagree({"fn": "restart route: setup_config ; setup_internal vs Infretis.Config.startUp",
+                              "case": obj, "request": line}, shown, m)
+    ctx.extra["restart_route_initialised_for_real"] = ctx.extra.get("restart_route_initialised_for_real", 0) + st_.get("n_rinit", 0)
+    ctx.extra["restart_route_start_ups_compared"] = ctx.extra.get("restart_route_start_ups_compared", 0) + len(rlcases)
     if have_model and icases:
         iout = safe_driver(ctx, [line for (_, line, _) in icases])
         for (obj, line, shown), m in zip(icases, iout):
@@ -1841,6 +2196,17 @@ def _run(ctx, real):
         "ON an interface (own, higher, cap, last; [0-]: λ0, λ₋₁) or strictly inside; their weight rows are compared "
         "with the direct statement (shooting entries) and with Infretis.WF.cvVector (all entries)",
         "tomli/tomli_w are trusted to be lossless on what is written",
+        "every table and key check_config / setup_config read unconditionally is present ([runner].workers, "
+        "[simulation] interfaces / shooting_moves / tis_set / steps, [output].data_dir): a file without one of them "
+        "raises KeyError before (or instead of) any configuration test, whatever else is wrong with it — judged only "
+        "for a missing shooting_moves key (= no shooting move), which is listed under pending_findings",
+        "interfaces are numbers: strings or nested lists for interfaces are outside the Lean model; block T runs them "
+        "through the real code and lists what it finds under pending_findings",
+        "a [current] table has a `size` key (the library always writes it); the model's Cfg.curSize = none means: no "
+        "[current] table (raw input file)",
+        "restart route: the [current] table is the one the library itself writes for the case's number of interfaces "
+        "(2..5) or for another number (size mismatch); accepted restart configurations are initialised through the "
+        "real setup_internal with valid initial paths stored for their interfaces, then asked for their first picks",
     ]:
         if a not in ctx.assumptions:
             ctx.assumptions.append(a)
@@ -1855,19 +2221,30 @@ def replay(ctx, obj):
     c = case_from_obj(r["case"])
     real = Real()
     try:
+        nfail = lambda: sum(v for k, v in ctx.hist.items() if k.startswith("fail:"))  # noqa: E731
+        if r.get("route") == "type-confusion":
+            # one value of another TOML type in a validated field (block T), judged exactly as in the run
+            n0 = nfail()
+            run_type_confusion(ctx, real, [], only=(c, r.get("modification")))
+            for f in ctx.fails:
+                print("FAIL", f["signature"], "-", f["what"])
+            return 1 if nfail() > n0 else 0
         d = to_dict(c, real.tmp)
         code_setup, cfg = real.setup(d)
         print("setup_config:", code_setup)
-        nfail = lambda: sum(v for k, v in ctx.hist.items() if k.startswith("fail:"))  # noqa: E731
         n0 = nfail()
         judge(ctx, real, c, code_setup, cfg, True, True, FAMILIES)
         # … and through the restart route (recorded variant / entry form, default: a restart that goes on)
         real.make_base_restart()
         variant = r.get("variant", "go")
         two_files = bool(r.get("two_files", False))
-        rcode, rcfg = real.setup_restart(restart_dict(real, c, variant), two_files)
+        # the [current] table: the recorded size (an interface added to / removed from a restart file), default:
+        # the table the library writes for the case's own number of interfaces
+        size = r.get("current_size", len(c[0]) if 2 <= len(c[0]) <= 5 else None)
+        rd = restart_dict(real, c, variant, size)
+        rcode, rcfg = real.setup_restart(rd, two_files)
         print("setup_config(restart file):", rcode)
-        judge_restart(ctx, real, c, variant, two_files, rcode, rcfg)
+        judge_restart(ctx, real, c, variant, two_files, rcode, rcfg, rd, rd["current"]["size"], True)
         for f in ctx.fails:
             print("FAIL", f["signature"], "-", f["what"])
         return 1 if nfail() > n0 else 0
